@@ -21,4 +21,7 @@ SHAPES = {
                 "options": "dict", "validate_fn": "fn:fastavro/_validation_py.py:_validate", "metadata": "dict",
                 "block_writer": "tablefn:fastavro/_write_py.py:BLOCK_WRITERS"},
     "BinaryDecoder": {"fo": "InStream", "_block_count": "int"},
+    # a block handed out by block_reader (fastavro/_read_py.py: class Block)
+    "ReadBlock": {"__class__": "Block", "bytes_": "InStream", "num_records": "int", "codec": "py", "reader_schema": "py",
+                  "writer_schema": "py", "_named_schemas": "dict", "offset": "int", "size": "int", "options": "dict"},
 }
